@@ -182,9 +182,10 @@ def jobs(tier, seed):
     for seq in sequences(tier):
         js.append(dict(kind='cuts', items=seq, ka=True, il=False, tier=tier))
     for b in ('text', 'gzip'):
-        js.append(dict(kind='overrun-first', items=[('canon', 'overrun', b),
-                                                    ('canon', 'cl', 'text')],
-                       ka=True, il=False, tier=tier))
+        for fr in ('overrun', 'overrun_resp'):
+            js.append(dict(kind='overrun-first', items=[('canon', fr, b),
+                                                        ('canon', 'cl', 'text')],
+                           ka=True, il=False, tier=tier))
     js.append(dict(kind='light', items=[('biglf', 'cl', 'text')], ka=True, il=False, tier=tier))
     js.append(dict(kind='light', items=[('biglf', 'chunked_ext', 'text'), ('canon', 'cl', 'text')],
                    ka=True, il=False, tier=tier))
